@@ -780,6 +780,134 @@ theorem shape_of_from (name rest t' : Bytes) (s2 s3 : S)
     · exact h11 e he
     · rw [he]; simp
 
+/-! ### arguments that are atoms: a line without DQUOTE and without "{" -/
+
+/-- the server is at `t` CRLF `rest`, no literal open, and `t` has neither a quote nor a brace -/
+structure At (t rest : Bytes) (s : S) : Prop where
+  inp : s.inp = t ++ 13 :: 10 :: rest
+  eol : noEol t
+  q : 34 ∉ t
+  b : 123 ∉ t
+  lit : s.lit = none
+
+theorem At.next {t rest : Bytes} {s : S} (h : At t rest s) :
+    ∃ b r, s.inp = b :: r ∧ b ≠ 34 ∧ b ≠ 123 := by
+  cases t with
+  | nil => exact ⟨13, _, h.inp, by decide, by decide⟩
+  | cons b t' =>
+    refine ⟨b, _, h.inp, ?_, ?_⟩
+    · intro hb; exact h.q (by simp [hb])
+    · intro hb; exact h.b (by simp [hb])
+
+theorem At.adv {t rest c tx : Bytes} {s s' : S} (h : At t rest s) (htc : t = c ++ tx) (a : Adv s s' c) :
+    At tx rest s' := by
+  refine ⟨?_, (noEol_append (htc ▸ h.eol)).2, fun hq => h.q (by rw [htc]; simp [hq]),
+    fun hb => h.b (by rw [htc]; simp [hb]), by rw [a.lit, h.lit]⟩
+  have := a.inp
+  rw [h.inp, htc, List.append_assoc] at this
+  exact (List.append_cancel_left this).symm
+
+theorem At.upd {t rest : Bytes} {s s' : S} (h : At t rest s) (hi : s'.inp = s.inp) (hl : s'.lit = s.lit) :
+    At t rest s' := ⟨by rw [hi, h.inp], h.eol, h.q, h.b, by rw [hl, h.lit]⟩
+
+theorem look_crlf (s : S) : s.look.2.crlf = false := by
+  unfold S.look
+  dsimp only
+  split
+  · simp
+  · split <;> simp [S.sawEof, S.emit]
+
+theorem accept_crlf (s : S) (w : Nat) : (s.accept w).2.crlf = false := by
+  unfold S.accept
+  have := look_crlf s
+  generalize s.look = p at this
+  obtain ⟨r, s1⟩ := p
+  cases r with
+  | none => exact this
+  | some b => dsimp only; split <;> simp [S.take, this] <;> exact this
+
+theorem func_crlf0 (s : S) (v : Nat → Bool) : (s.func v).2.crlf = false := by
+  unfold S.func
+  dsimp only
+  split
+  · simp
+  · split
+    · simp [S.sawEof, S.emit, S.take]
+    · split <;> simp [S.take]
+
+theorem expectAtom_crlf (s : S) : s.expectAtom.2.crlf = false := by
+  unfold S.expectAtom
+  have := func_crlf0 s isAtomChar
+  generalize s.func isAtomChar = p at this
+  obtain ⟨r, s1⟩ := p
+  cases r <;> simp [this] <;> exact this
+
+theorem sp_crlf (s : S) : s.sp.2.crlf = false := by
+  unfold S.sp
+  split
+  · rename_i s1 h1
+    split
+    · rename_i b s2 h2; have := look_crlf s1; rw [h2] at this; exact this
+    · rename_i s2 h2; have := look_crlf s1; rw [h2] at this; exact this
+  · rename_i s1 h1
+    split
+    · rename_i b s2 h2; have := look_crlf s1; rw [h2] at this; exact this
+    · rename_i s2 h2; have := look_crlf s1; rw [h2] at this; exact this
+
+theorem expectSP_crlf (s : S) : s.expectSP.2.crlf = false := by
+  unfold S.expectSP S.expect
+  dsimp only
+  split
+  · exact sp_crlf s
+  · simp [sp_crlf s]
+
+/-- one step on such a line: what was consumed, where the server is now -/
+def StepAt (t rest : Bytes) (s s' : S) : Prop :=
+  ∃ c tx, t = c ++ tx ∧ Adv s s' c ∧ At tx rest s' ∧ s'.crlf = false
+
+theorem expectSP_at {t rest : Bytes} {s : S} (h : At t rest s) : StepAt t rest s s.expectSP.2 := by
+  obtain ⟨c, tx, htc, a⟩ := expectSP_onLine (rfl : s.expectSP = (s.expectSP.1, s.expectSP.2)) h.lit t rest h.inp h.eol
+  exact ⟨c, tx, htc, a, h.adv htc a, expectSP_crlf s⟩
+
+theorem expectAtom_at {t rest : Bytes} {s : S} (h : At t rest s) : StepAt t rest s s.expectAtom.2 := by
+  obtain ⟨c, tx, htc, a⟩ := expectAtom_onLine (rfl : s.expectAtom = (s.expectAtom.1, s.expectAtom.2)) h.lit t rest h.inp h.eol
+  exact ⟨c, tx, htc, a, h.adv htc a, expectAtom_crlf s⟩
+
+/-- ExpectAString where the next octet is neither DQUOTE nor "{": an atom is expected -/
+theorem astring_eq (cfg : Cfg) (s : S) (b : Nat) (r : Bytes) (hl : s.lit = none) (hi : s.inp = b :: r)
+    (hq : b ≠ 34) (hb : b ≠ 123) :
+    s.astring cfg = (if s.err.isSome then (none, ({ s with crlf := false } : S))
+      else ({ s with crlf := false } : S).expectAtom) := by
+  unfold S.astring S.quoted
+  rw [accept_miss s b 34 r hl hi hq]
+  dsimp only
+  unfold S.literal S.literalReader
+  rw [accept_miss ({ s with crlf := false } : S) b 123 r hl hi hb]
+
+theorem astring_at (cfg : Cfg) {t rest : Bytes} {s : S} (h : At t rest s) : StepAt t rest s (s.astring cfg).2 := by
+  obtain ⟨b, r, hi, hq, hb⟩ := h.next
+  rw [astring_eq cfg s b r h.lit hi hq hb]
+  have h0 : At t rest ({ s with crlf := false } : S) := h.upd rfl rfl
+  split
+  · exact ⟨[], t, by simp, ⟨by simp, by simp, by simp, rfl, rfl, rfl, rfl, rfl⟩, h0, rfl⟩
+  · obtain ⟨c, tx, htc, a, hat, hc⟩ := expectAtom_at h0
+    exact ⟨c, tx, htc, ⟨a.inp, a.pos, a.roles, a.lit, a.tail, a.st, a.evs, a.mute⟩, hat, hc⟩
+
+theorem mailbox_at (cfg : Cfg) {t rest : Bytes} {s : S} (h : At t rest s) : StepAt t rest s (s.mailbox cfg).2 := by
+  unfold S.mailbox
+  obtain ⟨c, tx, htc, a, hat, hc⟩ := astring_at cfg h
+  generalize s.astring cfg = p at a hat hc
+  obtain ⟨v, s1⟩ := p
+  cases v with
+  | none => exact ⟨c, tx, htc, a, hat, hc⟩
+  | some v =>
+    dsimp only at a hat hc ⊢
+    split
+    · exact ⟨c, tx, htc, a, hat, hc⟩
+    · refine ⟨c, tx, htc, ⟨by simp [a.inp], by simp [a.pos], by simp [a.roles], by simp [a.lit],
+        by rw [← a.tail]; unfold S.fail; split <;> rfl, by rw [← a.st]; unfold S.fail; split <;> rfl,
+        by simp [a.evs], by rw [← a.mute]; unfold S.fail; split <;> rfl⟩, hat.upd (by simp) (by simp), by simp [hc]⟩
+
 /-- handlers of the form ExpectCRLF; then something that neither reads nor answers -/
 def NoArgHandler (h : Handler) : Prop :=
   ∃ body, BodyPure body ∧ h = .run (fun s => noArgs s body)
